@@ -279,12 +279,12 @@ def main():
     ck = lib.Check("C19")
     pr = ck.run_proof()
     quick = ck.tier == "quick"
-    n_main, n_upd = (72, 12) if quick else (700, 100)
+    n_main, n_upd = (72, 12) if quick else (420, 60)
     cases = [gen_case(ck.rng, ck.tier) for _ in range(n_main)] + \
             [gen_case(ck.rng, ck.tier, force="update") for _ in range(n_upd)]
     t_impl = time.time()
     ires = run_impl_parallel([to_impl(c) for c in cases], shards=12 if quick else 16)
-    probes = probe_cases(ck.rng, cases, ires, 16 if quick else 150)
+    probes = probe_cases(ck.rng, cases, ires, 16 if quick else 90)
     ires += run_impl_parallel([to_impl(c) for c in probes], shards=8 if quick else 16)
     cases += probes
     ck.hist["impl_seconds"] = {"value": round(time.time() - t_impl, 1)}
@@ -309,7 +309,8 @@ def main():
                            f"{blist(s['dx'])} {nat(s['i'])}", j)
         # (2) body_fun on sampled transitions
         nt = len(traj) - 1
-        sel = sorted(set([0, nt - 1] + ([ck.rng.randrange(nt) for _ in range(2)] if nt > 2 else [])) & set(range(nt)))
+        extra_t = [ck.rng.randrange(nt) for _ in range(2 if D <= 7 else 1)] if nt > 2 else []
+        sel = sorted(set([0, nt - 1] + extra_t) & set(range(nt)))
         for t in sel:
             add(i, "step", f"c19b_step {common(c)} {blist(traj[t]['x'])} {blist(traj[t]['fx'])}", t)
         # (3) the loop from the state the last iteration of the DEFAULT while_loop started from
@@ -342,7 +343,8 @@ def main():
     try:
         with cf.ThreadPoolExecutor(max_workers=2) as tex:
             fut_ref = tex.submit(lib.coq_eval, "C19ref", HEADER, [to_qc(terms[j]) for j in xsel], 10, 600, 4)
-            mvals = lib.coq_eval("C19", HEADER, terms, shard=max(8, len(terms) // 32 + 1), timeout=600, case_timeout=120)
+            # small shards: a shard that times out is re-run term by term, which wastes its whole budget
+            mvals = lib.coq_eval("C19", HEADER, terms, shard=16 if quick else 12, timeout=1500, case_timeout=300)
             rvals = fut_ref.result()
         nref = 0
         for j, rv in zip(xsel, rvals):
@@ -396,8 +398,12 @@ def main():
                  probe=c["probe"] or "none",
                  exit_by="+".join(n_ for n_, f_ in zip(("residual", "budget", "increment"), flags(prim["fx"], prim["dx"], k)) if not f_))
         C = gram(c["L"])
-        xs = max([abs(float(v)) for s in traj for v in s["x"]] + [abs(float(v)) for v in c["m"]]
-                 + [math.sqrt(float(C[a][a])) for a in range(D)] + [1e-300])
+        base = max([abs(float(v)) for v in c["m"]] + [math.sqrt(float(C[a][a])) for a in range(D)] + [1e-300])
+
+        def scale_of(*states):      # scale of x around the given states, of the mean and of sqrt(diag C)
+            return max([base] + [abs(float(v)) for s_ in states for v in s_["x"]])
+
+        xs = scale_of(prim, *(traj[-2:]))
         xtol = 1e-8 * xs
 
         # ---------------- direct checks on the implementation's own output
@@ -461,12 +467,14 @@ def main():
                     continue
                 nxt = traj[t + 1]
                 stats["steps_compared"] += 1
-                mm = vec_close(nxt["x"], st["x"], xtol)
+                xs_t = scale_of(traj[t], nxt)
+                xtol_t = 1e-8 * xs_t
+                mm = vec_close(nxt["x"], st["x"], xtol_t)
                 if mm:
                     ck.report(f"C19.step.{c['kind']}", f"body_fun transition {t}->{t + 1}: x {mm}", dict(replay, transition=t, model=jsonable(st)))
                     continue
-                worst = max(worst, max(abs(a - float(b)) for a, b in zip(nxt["x"], st["x"])) / xs)
-                mm = vec_close(nxt["dx"], st["dx"], 2 * xtol)
+                worst = max(worst, max(abs(a - float(b)) for a, b in zip(nxt["x"], st["x"])) / xs_t)
+                mm = vec_close(nxt["dx"], st["dx"], 2 * xtol_t)
                 if mm:
                     ck.report(f"C19.step-increment.{c['kind']}", f"body_fun transition {t}->{t + 1}: dx {mm}", dict(replay, transition=t))
                 fs = max(poly_scale(p_, [Fr(x_) for x_ in nxt["x"]]) for p_ in c["polys"])
